@@ -420,7 +420,8 @@ namespace avel {
         AVEL_FINL explicit operator mask() const {
             #if defined(AVEL_AVX512F)
             auto t = _mm512_castps_si512(content);
-            return mask{_mm512_test_epi32_mask(t, t)};
+            (void) t;
+            return mask{_mm512_cmp_ps_mask(content, _mm512_setzero_ps(), _CMP_NEQ_UQ)};
             #endif
         }
 
